@@ -69,12 +69,17 @@ class LimiterSystem:
         self.line = self.marks[target]
         self.target = target
         args = tp_args(cfg)
-        if cfg.get('ws', 0) or cfg.get('we', 0):
+        numeric = cfg['ck'] == 'num' or cfg['pk'] == 'num'
+        if cfg.get('ws', 0) or cfg.get('we', 0) or numeric:
             # build_trigger does not forward window_*; windows are reachable through LocationAction directly
             from deep.api.tracepoint.trigger import LocationAction, LineLocation, Trigger, Location
             conf = {'watches': [], 'frame_type': 'single_frame', 'stack_type': 'stack',
                     'fire_count': args.get('fire_count', '1'), 'fire_period': args.get('fire_period', '1000'),
                     'log_msg': None}
+            if cfg['ck'] == 'num':
+                conf['fire_count'] = int(cfg['cv'])              # a number, as register_tracepoint(args={...}) may pass it
+            if cfg['pk'] == 'num':
+                conf['fire_period'] = int(cfg['pv'] * R.TICK_MS)
             if cfg['ws']:
                 conf['window_start'] = R.BASE_NS + cfg['ws'] * R.TICK_NS
             if cfg['we']:
